@@ -77,6 +77,8 @@ def classify(msg):
     m = re.match(r"^Can't render (\S+) with itself", msg)
     if m:
         return ["notMapping", m.group(1)]
+    if msg.startswith("Tagged YAML values are not supported"):
+        return ["yamlTagged"]
     if msg.startswith("Can't extract first path segment") or msg.startswith("Unable to extract last segment") or msg.startswith("Empty node name"):
         return ["metaParts"]
     return ["other", m0]
@@ -102,6 +104,7 @@ COMPARED = {
     "other": [],
     "config": [],
     "metaParts": [],
+    "yamlTagged": [],
 }
 
 def err_projection(e):
